@@ -103,14 +103,14 @@ class FakeUdp:
             raise core.Machinery("discover() never stops receiving")
         if not self.queue:
             raise _s.timeout("no more replies")
-        return self.queue.pop(0)
+        return self.queue.pop(0)[:n]               # a datagram longer than the buffer is cut (UDP)
 
 
 def rand_ident(rnd):
     i = S.identity(fw=rnd.randint(0, 255), serial=rnd.getrandbits(32), vendor=rnd.choice([1, 0, 5, 65535, rnd.randint(0, 2000)]),
                    ptype=rnd.choice([0, 12, 14, 43, 300, 65535]), pcode=rnd.randint(0, 65535), minor=rnd.randint(0, 255),
                    status=(rnd.getrandbits(8), rnd.getrandbits(8)))
-    i["name"] = [rnd.choice([32, 65, 66, 49, 255]) for _ in range(rnd.choice([0, 1, 7, 32, 100]))]
+    i["name"] = [rnd.choice([32, 65, 66, 49, 255]) for _ in range(rnd.choice([0, 1, 7, 32, 100, 254, 255]))]
     i["ip"] = [rnd.getrandbits(8) for _ in range(4)]
     i["state"] = rnd.getrandbits(8)
     return i
@@ -125,6 +125,13 @@ def discover_events(rec, rnd, n):
         dgrams, script = [], []
         for j in range(rnd.choice([1, 2, 3, 5])):
             i = rand_ident(rnd)
+            if j and k % 3 == 0:                      # distinct devices may share a serial number, and unknown vendors share a name
+                i["serial"] = first_serial
+                i["vendor"] = 40000 + j
+            if j == 0:
+                first_serial = i["serial"]
+                if k % 3 == 0:
+                    i["vendor"] = 40000
             item = Target({"identity": i}).identity_bytes(listid=True)
             body = bytes([1, 0, 0x0C, 0, len(item) & 0xFF, len(item) >> 8]) + item
             frame = bytes([0x63, 0, len(body) & 0xFF, len(body) >> 8]) + bytes(20) + body
@@ -195,6 +202,11 @@ def session_scenarios(rnd, n):
         calls = [{"api": "open"}, {"api": "_list_identity"}, {"api": "get_module_info", "slot": rnd.randint(0, 16)}]
         if kind == "cip" and k % 2:
             calls = [{"api": "list_identity", "path": "10.2.2.2/bp/0"}] + calls          # the classmethod, before this driver is opened
+        if kind == "cip" and k % 8 == 4:
+            # a device that refuses RegisterSession still answers the session-less ListIdentity
+            scs.append({"id": "idr%d" % k, "family": "identity-cip-session-refused", "target": {"policy": "SessionRefused", "identity": ident},
+                        "driver": {"kind": "cip", "path": "10.2.2.2/bp/0", "route": [S.port_seg("bp", 0)]},
+                        "calls": [{"api": "list_identity", "path": "10.2.2.2/bp/0"}]})
         sc = {"id": "id%d" % k, "family": "identity-" + kind, "target": {"policy": "LargeOK", "identity": ident},
               "driver": {"kind": kind, "path": "10.2.2.2/bp/0" if kind == "cip" else "10.2.2.2", "route": [S.port_seg("bp", 0)]}}
         if kind == "logix":
